@@ -271,6 +271,9 @@ def rewrite_rules(ctx, te, rule="C11.rewrite"):
                         lhs = env["f"]
                         xs = [Lit("p")]
                     ret = [s for s in b2 if isinstance(s, ast.Return)]
+                    for s_ in b2:            # named intermediates of the branch
+                        if isinstance(s_, ast.Assign) and len(s_.targets) == 1 and isinstance(s_.targets[0], ast.Name):
+                            env[s_.targets[0].id] = te.eval(s_.value, env, f)
                     rhs = te.eval(ret[0].value, env, f)
                     cex = equivalent(lhs, rhs, [x.name for x in xs])
                     ctx.check(cex is None, rule, f, "Not(%s)%s -> %r: %s" % (k2, "" if n is None else "[%d]" % n, rhs, cex),
@@ -405,13 +408,22 @@ def rewrite_rules(ctx, te, rule="C11.rewrite"):
 
     # ---- serialisation
     f = ctx.fn("logic:cnf_to_json")
-    body = ast.unparse(f.node)
+    # the per-clause accumulator may carry any name: rename it to `l` before the shape is compared
+    import copy as _copy
+    fnode = _copy.deepcopy(f.node)
+    accs = {c_.args[0].id for c_ in ast.walk(fnode) if isinstance(c_, ast.Call) and dotted(c_.func) == "or_list.append" and c_.args and isinstance(c_.args[0], ast.Name)}
+    if len(accs) == 1:
+        acc = accs.pop()
+        for n_ in ast.walk(fnode):
+            if isinstance(n_, ast.Name) and n_.id == acc:
+                n_.id = "l"
+    body = ast.unparse(fnode)
     ok = "if isinstance(o, Or):" in body and "if isinstance(n, int):\n                        l.append(n)" in body and \
         "elif isinstance(n, Not):\n                        l.append(-n.c)" in body and "elif isinstance(o, int):\n                or_list.append([o])" in body and \
         body.count("raise ValueError") == 2 and "or_list.append(l)" in body
     ctx.check(ok, "C11.json", f, "cnf_to_json", "Or of int / Not(int) -> signed ints; bare int -> unit clause; anything else raises",
               "cnf_to_json changed shape")
-    orb = [x for x in statements(f.node) if isinstance(x, ast.If) and ast.unparse(x.test) == "isinstance(o, Or)"]
+    orb = [x for x in statements(fnode) if isinstance(x, ast.If) and ast.unparse(x.test) == "isinstance(o, Or)"]
     ctx.check(len(orb) == 1 and ast.unparse(orb[0].body[-1]) == "or_list.append(l)", "C11.json", f, "every disjunction becomes a clause",
               "every Or -- also the empty one, which is False -- contributes exactly one clause, unconditionally",
               "cnf_to_json appends the literal list of an Or only under a condition: an empty disjunction (False) is dropped and an unsatisfiable formula becomes satisfiable",
